@@ -2,7 +2,7 @@
 One generated argument stream (the C03 sweep restricted to names that exist as public static methods of Xraylib, found by reflection) is
 executed by the C interpreter and by a Java reflection harness (java/JHarness.java, compiled offline against a stub of the only external
 class); both data configurations, the Java data file being dumped by pr_data_java.c from the same sources."""
-import math, os, re, subprocess
+import math, os, random, re, subprocess
 import common, vbuild, calls, apigen, apisweep, c03
 from common import Stats, mix
 
@@ -121,7 +121,6 @@ def work(item):
             plan.append((fn, kinds, args))
     # neighbour runs: consecutive calls that differ in exactly one argument (base, variant, base, variant ...), so that anything one
     # implementation remembers between calls under an incomplete key shows up as a difference from the stateless other one
-    import random
     rng = random.Random(mix(seed, "c19n", tag))
     byfn = {}
     for fn, kinds, args in plan:
@@ -175,6 +174,26 @@ def work(item):
                     st.violation("java-threads-differ:" + fn, dict(config=config, fn=fn, args=[a if not isinstance(a, bytes) else a.decode("latin-1") for a in args]), a1[:160], a2[:160])
                     break
             st.cls("java_thread_runs")
+        # the compound functions once more, concentrated: their successful serial answers, repeated to 40 000 calls, on 16 threads
+        idx = [i for i, (fn, kinds, args) in enumerate(plan) if (fn.endswith("_CP") or fn.startswith("Refractive_Index") or fn == "CompoundParser") and out_j[i].startswith("R\t") and out_j[i].endswith("\tE\t-")]
+        if len(idx) >= 8:
+            rng2 = random.Random(mix(seed, "c19stress", tag))
+            pick = [rng2.choice(idx) for _ in range(40000)]
+            cf2, jt2 = os.path.join(sdir, "calls_%s_stress.txt" % tag), os.path.join(sdir, "out_%s_stress.txt" % tag)
+            with open(cf2, "w") as f:
+                f.write("\n".join(lines[i] for i in pick) + "\n")
+            ps = subprocess.run(["java", "-Xss16m", "-cp", jd, "com.github.tschoonj.xraylib.JHarness", cf2, jt2, "16"], stdout=subprocess.PIPE, stderr=subprocess.PIPE, timeout=3600)
+            out_s = open(jt2, encoding="latin-1").read().split("\n") if os.path.exists(jt2) else []
+            if ps.returncode != 0 or len(out_s) < len(pick):
+                st.violation("harness-failed", dict(config=config, tag=tag, what="thread stress"), "threaded Java run completes", ps.stderr.decode("utf-8", "replace")[-1200:])
+            else:
+                for i, got in zip(pick, out_s):
+                    st.ev()
+                    if got != out_j[i]:
+                        fn, kinds, args = plan[i]
+                        st.violation("java-threads-differ:" + fn, dict(config=config, fn=fn, args=[a if not isinstance(a, bytes) else a.decode("latin-1") for a in args], threads=16), out_j[i][:160], got[:160])
+                        break
+                st.cls("java_thread_stress_calls", len(pick))
     for (fn, kinds, args), oc, oj in zip(plan, out_c, out_j):
         st.ev()
         if oj.startswith("X\t"):
